@@ -242,6 +242,16 @@ func (p *parser) typeName() string {
 		}
 		break
 	}
+	if t := p.peek(); t.k == "ident" && t.v == "map" && p.p+1 < len(p.toks) && p.toks[p.p+1].k == "op" && p.toks[p.p+1].v == "[" {
+		// map[K]V
+		p.next()
+		p.next()
+		k := p.typeName()
+		p.expect("]")
+		v := p.typeName()
+		b.WriteString("map[" + k + "]" + v)
+		return b.String()
+	}
 	b.WriteString(p.ident())
 	for p.isOp(".") || p.isOp("/") {
 		b.WriteString(p.next().v)
